@@ -246,6 +246,37 @@ def check_invalid_prefix(case):
     return 'ok', []
 
 
+OUT_OF_RANGE = [
+    # (attribute, mode it applies to (None = both), value) - values that do not fit the field the attribute has in that mode
+    ('7', False, [65536, '10.0.0.9']), ('7', False, [2 ** 32 - 1, '10.0.0.9']), ('7', False, [70000, '192.0.2.1']),
+    ('7', None, [2 ** 32, '10.0.0.9']), ('7', None, [-1, '10.0.0.9']), ('7', None, [65001, '2001:db8::1']),
+    ('2', False, [[2, [65536]]]), ('2', False, [[2, [65001, 2 ** 32 - 1, 65002]]]), ('2', None, [[2, [2 ** 32]]]),
+    ('2', None, [[2, [65001] * 256]]), ('1', None, 256), ('1', None, -1), ('4', None, 2 ** 32), ('5', None, 2 ** 32),
+    ('4', None, -1), ('8', None, ['65536:1']), ('8', None, [2 ** 32]), ('3', None, '2001:db8::1'), ('3', None, '10.0.0.256'),
+    ('9', None, '10.0.0'), ('10', None, ['10.0.0.1', '2001:db8::1']),
+]
+
+
+@st.composite
+def out_of_range_case(draw):
+    """a valid C06 case in which one attribute value does not fit its field in the session's mode (AS above 65535
+    on a two-octet-AS session, 2^32 in a four-octet field, ...): refused or, if a message is built, it is well formed"""
+    case = draw(c06.update_case().filter(lambda c: c['attr']))
+    code, mode, value = draw(st.sampled_from(OUT_OF_RANGE))
+    if mode is not None:
+        case['asn4'] = mode
+        if not mode:       # keep the rest of the case inside the two-octet domain
+            for k in ('2', '7', '17', '18'):
+                if k != code and k in case['attr']:
+                    del case['attr'][k]
+                    case['order'].remove(int(k))
+    if code not in case['attr']:
+        case['order'].insert(draw(st.integers(0, len(case['order']))), int(code))
+    case['attr'][code] = value
+    case['oor'] = code
+    return case
+
+
 def predicted_routes(facet, value):
     items = value.get('nlri') if 'nlri' in value else value.get('withdraw')
     out = []
@@ -479,6 +510,7 @@ KINDS = {
     'c06': (lambda: c06.update_case(), check_c06),
     'invalid-prefix': (lambda: invalid_prefix_case(), check_invalid_prefix),
     'addpath': (lambda: addpath_case(), check_addpath),
+    'out-of-range': (lambda: out_of_range_case(), check_invalid_prefix),
     'srte': (lambda: srte_case, check_srte),
     'pmsi': (lambda: pmsi_case, check_pmsi),
     'fs6': (lambda: fs6_case, check_fs6),
